@@ -460,6 +460,15 @@ def run(ctx):
         customspec.scenario(ctx, 'track reader == message', 'from_bytes(bytes) == message',
                             'bytes == FF type VLQ(len) payload (reference)')
         n += 1
+    if sh == 6 % N:
+        # a sample again after other (often failing, or result-editing) calls elsewhere in mido
+        from .. import gen
+        for pi, (name, thunk) in enumerate(gen.perturbations()):
+            gen.run_quietly(thunk)
+            judge_message(ctx, 'text', {'text': text_of((0, 127, 128, 300, 16384)[pi % 5], 'high', rng)}, delta=(0, 128, 960)[pi % 3])
+            judge_message(ctx, 'set_tempo', {'tempo': 500000 + pi}, delta=16384)
+            judge_message(ctx, 'sequencer_specific', {'data': tuple(range(pi % 7))}, delta=1)
+            n += 3
     ctx.nontrivial(None, n)
     from .. import coldstart
     n += coldstart.phase(ctx, cold_jobs(), 'from_bytes(bytes) == message', offset=5)
